@@ -6,6 +6,7 @@ the subscription providers); the observation points are get_owned_*/get_all_*, t
 interop instance store of the mock read directly (not through the manager)."""
 import io
 import itertools
+import os
 import random
 import sys
 import warnings
@@ -13,6 +14,8 @@ from contextlib import redirect_stdout
 
 from bounded.common import Run
 
+if os.getcwd() not in sys.path:
+    sys.path.append(os.getcwd())       # the mock-server builder lives in the tests package of the source tree (cwd)
 with redirect_stdout(io.StringIO()):   # the test helper prints a banner on import
     from tests.unittest.utils.wbemserver_mock import WbemServerMock
     from tests.unittest.pywbem.test_subscriptionmanager import SUBSCRIPTION_WBEM_SERVER_MOCK_DICT
@@ -20,11 +23,12 @@ from pywbem import WBEMServer, WBEMSubscriptionManager, CIMInstanceName, CIMInst
 
 warnings.simplefilter('ignore')
 
-R = Run('subscription-manager histories on 1..2 mock servers x 1..3 managers: all ordered pairs of a 21-id pool '
-        '(regex metachars, prefixes, case, empty) through create/discover/remove/restart; all op sequences of '
-        'length <= 2 (quick) / <= 3 (thorough) over a 17-symbol alphabet for 1 manager x 1 server (+ seeded '
-        'sample one longer); listener-URL forms x persistence types x owned/permanent; seeded random histories '
-        'of 10..24 ops with duplicate adds, removals in any order, list arguments, restarts, foreign instances')
+R = Run('WBEMSubscriptionManager on 1..2 pywbem_mock servers x 1..3 managers vs a ghost model of the server content: '
+        'ordered pairs of a 21-id pool (regex metachars, mutual prefixes, case, empty; thorough: all 420, quick: 70) '
+        'through create/discover/remove/restart; all op sequences of length <= 2 (quick) / <= 3 (thorough) over a '
+        '17-symbol alphabet for 1 manager x 1 server + seeded longer ones; 14 listener-URL forms x 7 persistence '
+        'types x owned/permanent; unregistered-server, colon-in-id, host-in-path scenarios; seeded random histories '
+        'of 10..24 ops (duplicate adds, removals in any order, list arguments, restarts, foreign instances)')
 
 FIL = 'CIM_IndicationFilter'
 DST = 'CIM_ListenerDestinationCIMXML'
@@ -89,6 +93,19 @@ class Srv:
         self.url = self.conn.url
         self.sysname = mock.wbem_server.cimom_inst['SystemName']
         self.store = self.conn.cimrepository.get_instance_store(NS)
+        # a server without registered profiles (they are irrelevant here and every enumeration deep-copies them)
+        for n in list(self.store.iter_names()):
+            if n.classname in ('CIM_RegisteredProfile', 'CIM_ReferencedProfile', 'CIM_ElementConformsToProfile'):
+                self.store.delete(n)
+        self.wbem_server = WBEMServer(self.conn)
+        self.nreg = 0
+
+    def server_object(self):
+        """A WBEMServer for add_server: normally the long-lived one, every 8th time a fresh one."""
+        self.nreg += 1
+        if self.nreg % 8 == 0:
+            return WBEMServer(self.conn)
+        return self.wbem_server
 
     def reset(self):
         for n in list(self.store.iter_names()):
@@ -333,7 +350,7 @@ class History:
         srv = self.srv[op[2]]
         sid = srv.url
         if kind == 'reg':
-            return mgr.add_server(WBEMServer(srv.conn))
+            return mgr.add_server(srv.server_object())
         if kind == 'unreg':
             return mgr.remove_server(sid)
         if kind == 'add_filter':
@@ -342,10 +359,10 @@ class History:
         if kind == 'add_dest':
             kw = dict(destination_id=op[4]) if op[3] else dict(name=op[4])
             return mgr.add_destination(sid, op[5], owned=op[3], persistence_type=op[6], **kw)
-        host = srv.conn.host if (len(op) > 6 and op[6] == 'host') or (kind != 'add_sub' and len(op) > 4 and
-                                                                      op[4] == 'host') else None
+        # rm_filter/rm_dest may carry a 5th element 'host': the path is then spelled with the host component
+        host = srv.conn.host if kind in ('rm_filter', 'rm_dest') and len(op) > 4 and op[4] == 'host' else None
         if kind == 'add_sub':
-            fp = srv.path(FIL, op[3], host=host)
+            fp = srv.path(FIL, op[3])
             dns = op[4]
             if dns is None:
                 dp = None
@@ -367,7 +384,7 @@ class History:
         raise AssertionError(op)
 
     # ---- one step
-    def step(self, op):
+    def step(self, op, final=False):
         """Returns True if no violation was seen at this step."""
         self.trace.append(op)
         n0 = len(self.vids)
@@ -389,11 +406,13 @@ class History:
             else:
                 ret = None
         if not (got in accepted or ('CIMError' in accepted and got.startswith('CIMError:'))):
+            # the model did not follow what really happened: report the outcome only, the history ends here
             self.report('outcome-%s-expected-%s-got-%s' % (kind, '|'.join(sorted(accepted)), got),
                         observed=repr(val)[:300])
-        elif got == 'ok' and ret is not None:
+            return False
+        if got == 'ok' and ret is not None:
             self.check_return(kind, ret, val)
-        self.check_state(kind, op)
+        self.check_state(kind, op, with_get_all=final or len(self.trace) % 4 == 0)
         return len(self.vids) == n0
 
     def check_return(self, kind, ret, val):
@@ -419,7 +438,7 @@ class History:
         except Exception as e:  # noqa
             self.report('return-value-%s-malformed' % kind, observed=repr(e)[:200])
 
-    def check_state(self, kind, op):
+    def check_state(self, kind, op, with_get_all=True):
         # 1. server content (read from the instance store, not through the manager) == model
         for si, (srv, S) in enumerate(zip(self.srv, self.msrv)):
             fil, dst, sub = srv.snapshot()
@@ -467,9 +486,24 @@ class History:
                     if set(names) - e:
                         self.report('owned-list-after-%s-%s-extra' % (kind, cls), manager=m, server=si,
                                     extra=sorted(set(names) - e))
-                    if e - set(names):
+                    miss = e - set(names)
+                    if miss and kind == 'reg' and cls == 'subscription' and (m, si) == (op[1], op[2]):
+                        # Discovery cannot see an owned subscription whose filter and destination are both not
+                        # owned (subscriptions carry no Name): reported under its own id; the model then forgets
+                        # the owner (the instance has become a foreign one) and the history goes on.
+                        mid = self.ids[m]
+                        lost = {k for k in miss if not owned_by(k[0], PRE[FIL], mid) and
+                                not owned_by(k[1], PRE[DST], mid)}
+                        if lost:
+                            R.violation('known:rediscovery-misses-owned-subscription-on-unowned-filter-and-destination',
+                                        family=self.family, manager_ids=self.ids, nservers=len(self.srv),
+                                        history=list(self.trace), manager=m, server=si, missing=sorted(lost))
+                            for k in lost:
+                                self.msrv[si].sub[k] = None
+                            miss -= lost
+                    if miss:
                         self.report('owned-list-after-%s-%s-missing' % (kind, cls), manager=m, server=si,
-                                    missing=sorted(e - set(names)))
+                                    missing=sorted(miss))
                     if set(names) - now:
                         self.report('owned-list-after-%s-%s-entry-not-in-server' % (kind, cls), manager=m, server=si,
                                     stale=sorted(set(names) - now))
@@ -481,8 +515,8 @@ class History:
                                 self.report('owned-list-after-%s-destination-properties' % kind, manager=m, name=n)
                     lst.clear()    # the returned list must be a copy: checked at the next step
         # 3. get_all_* of the acting manager == server content
-        if len(op) > 2 and isinstance(op[1], int) and isinstance(op[2], int) and not kind.startswith('foreign') \
-                and op[2] in self.reg[op[1]]:
+        if with_get_all and len(op) > 2 and isinstance(op[1], int) and isinstance(op[2], int) \
+                and not kind.startswith('foreign') and op[2] in self.reg[op[1]]:
             mgr, srv, S = self.mgr[op[1]], self.srv[op[2]], self.msrv[op[2]]
             try:
                 af = sorted(i.path.keybindings['Name'] for i in mgr.get_all_filters(srv.url))
@@ -494,8 +528,8 @@ class History:
                 self.report('get-all-raises-' + type(e).__name__, observed=repr(e)[:200])
 
     def run(self, ops):
-        for op in ops:
-            if not self.step(op):
+        for i, op in enumerate(ops):
+            if not self.step(op, final=(i == len(ops) - 1)):
                 return False
         return True
 
@@ -561,10 +595,8 @@ def pair_case(id1, id2):
                                 manager_ids=H.ids, nservers=1, history=list(H.trace), stale=stale)
         return
     ops = [('add_filter', 1, 0, True, 'f1'), ('add_dest', 1, 0, True, 'd1', u1, None),
-           ('add_sub', 1, 0, PRE[FIL] + id2 + ':f1', None, True),
-           ('add_sub', 1, 0, 'perm1', PRE[DST] + id2 + ':d1', True),
-           ('unreg', 1, 0), ('restart', 0), ('reg', 0, 0), ('restart', 1), ('reg', 1, 0),
-           ('rm_filter', 0, 0, pf), ('exit', 0), ('unreg_all', 1)]
+           ('add_sub', 1, 0, 'perm1', None, True), ('restart', 0), ('reg', 0, 0), ('unreg', 1, 0),
+           ('rm_sub', 0, 0, (pf, pd)), ('exit', 0)]
     H.run(ops)
 
 
@@ -632,7 +664,7 @@ def seq_case(mid, syms):
 
 # ---------------------------------------------------------------- family 3: listener URL forms x persistence
 
-def url_case(url, ptype, owned):
+def url_case(url, ptype, owned, quick=False):
     R.case(('url', url, ptype, owned))
     H = History('listener-url', ['abc', 'ab'], 1)
     ident = 'd.1' if owned else 'pywbemdestination:abc:d.1:perm'
@@ -662,18 +694,14 @@ def keyerror_relabel(vid, op, H):
 
 
 def host_relabel(vid, op, H):
-    hosted = (op[0] == 'add_sub' and len(op) > 6 and op[6] == 'host') or \
-        (op[0] in ('rm_filter', 'rm_dest') and len(op) > 4 and op[4] == 'host')
-    if not hosted:
-        return vid
-    if vid == 'outcome-add_sub-expected-ValueError-got-ok':
-        return 'known:permanent-on-owned-refusal-bypassed-by-host-in-filter-path'
-    if vid.startswith('owned-list-after-rm_') and (vid.endswith('-extra') or vid.endswith('-entry-not-in-server')):
+    hosted = op[0] in ('rm_filter', 'rm_dest') and len(op) > 4 and op[4] == 'host'
+    if hosted and vid.startswith('owned-list-after-rm_') and \
+            (vid.endswith('-extra') or vid.endswith('-entry-not-in-server')):
         return 'known:remove-with-host-in-path-leaves-stale-owned-entry'
     return vid
 
 
-def dedicated():
+def dedicated(quick):
     # destination_id containing ':' (documented as not allowed, enforced for filter_id only)
     for did in ('x:y', ':', 'abc:d1'):
         R.case(('dest-colon', did))
@@ -692,7 +720,8 @@ def dedicated():
         History('filter-id-colon', ['abc'], 1).run([('reg', 0, 0), ('add_filter', 0, 0, True, fid),
                                                     ('add_filter', 0, 0, True, 'ok'), ('exit', 0)])
     # operations on a server that is not (or no longer) registered
-    for prep in ([], [('reg', 0, 0), ('unreg', 0, 0)], [('reg', 0, 0), ('restart', 0)], [('reg', 0, 1)]):
+    for prep in ([], [('reg', 0, 0), ('restart', 0)]) if quick else \
+            ([], [('reg', 0, 0), ('unreg', 0, 0)], [('reg', 0, 0), ('restart', 0)], [('reg', 0, 1)]):
         for op in (('add_sub', 0, 0, 'perm1', 'permd1', True), ('add_sub', 0, 0, 'perm1', None, True),
                    ('add_sub', 0, 0, 'perm1', ('permd1',), False), ('add_filter', 0, 0, True, 'f'),
                    ('add_dest', 0, 0, True, 'd', 'http://host1:5000', None), ('rm_filter', 0, 0, 'perm1'),
@@ -701,10 +730,7 @@ def dedicated():
             H = History('unregistered-server', ['abc'], 2, relabel=keyerror_relabel)
             H.run([('foreign_filter', 0, 'perm1'), ('foreign_dest', 0, 'permd1', 'http://f:1')] + prep + [op])
     # instance paths that carry a host component
-    for tail in ([('add_sub', 0, 0, PRE[FIL] + 'abc:f1', 'permd1', False, 'host')],
-                 [('add_sub', 0, 0, PRE[FIL] + 'abc:f1', 'permd1', True, 'host'), ('restart', 0), ('reg', 0, 0)],
-                 [('add_sub', 0, 0, 'perm1', 'permd1', False, 'host')],
-                 [('rm_filter', 0, 0, PRE[FIL] + 'abc:f1', 'host')],
+    for tail in ([('rm_filter', 0, 0, PRE[FIL] + 'abc:f1', 'host')],
                  [('rm_dest', 0, 0, PRE[DST] + 'abc:d1', 'host')],
                  [('rm_filter', 0, 0, 'perm1', 'host'), ('rm_dest', 0, 0, 'permd1', 'host')]):
         R.case(('host-path', repr(tail)))
@@ -712,6 +738,17 @@ def dedicated():
         H.run([('reg', 0, 0), ('add_filter', 0, 0, True, 'f1'), ('add_dest', 0, 0, True, 'd1', 'http://host1:5000', None),
                ('add_filter', 0, 0, False, 'perm1'), ('add_dest', 0, 0, False, 'permd1', 'http://host1:5001', None)] +
               tail + [('unreg_all', 0)])
+    # owned subscription between a permanent filter and a permanent destination, then client restart
+    for fo, do in ((False, False), (True, False), (False, True), (True, True)):
+        R.case(('owned-sub-ends', fo, do))
+        fn = PRE[FIL] + 'abc:f1' if fo else 'perm1'
+        dn = PRE[DST] + 'abc:d1' if do else 'permd1'
+        History('owned-subscription-ends', ['abc', 'ab'], 1).run(
+            [('reg', 0, 0), ('reg', 1, 0), ('add_filter', 0, 0, fo, 'f1' if fo else 'perm1'),
+             ('add_dest', 0, 0, do, 'd1' if do else 'permd1', 'http://host1:5000', None),
+             ('add_sub', 0, 0, fn, dn, True), ('add_sub', 0, 0, fn, dn, True), ('add_sub', 1, 0, 'perm1', 'permd1', True),
+             ('restart', 0), ('reg', 0, 0), ('add_sub', 0, 0, fn, dn, False), ('rm_filter', 0, 0, fn),
+             ('unreg', 0, 0), ('exit', 1)])
     # manager id validation
     for bad, exc in (('a:b', ValueError), (':', ValueError), (None, ValueError), (5, TypeError), (b'abc', TypeError)):
         R.case(('bad-id', repr(bad)))
@@ -728,10 +765,6 @@ def dedicated():
 
 FIDS = ['f1', 'f2', '', 'a.c', 'x y', 'abc', 'F1', '.*', 'é']
 DIDS = ['d1', 'd2', '', 'a.c', 'abc', '[d]']
-
-
-def sub_relabel(vid, op, H):
-    return vid
 
 
 def random_history(rnd, idx):
@@ -820,35 +853,6 @@ def random_history(rnd, idx):
             if not free:
                 continue
             op = ('foreign_sub', s) + rnd.choice(free)
-        if op[0] == 'reg' and op[2] not in H.reg[op[1]]:
-            # Discovery cannot see owned subscriptions whose two ends are both not owned (subscriptions carry no
-            # Name): report that documented-but-lossy case under its own id and let the model forget the owner.
-            S2, mid2 = H.msrv[op[2]], ids[op[1]]
-            lost = [k for k, o in S2.sub.items() if o is not None and o == mid2 and
-                    not owned_by(k[0], PRE[FIL], mid2) and not owned_by(k[1], PRE[DST], mid2)]
-            if lost:
-                H.trace.append(op)
-                H.trace.pop()
-                pre = History.report
-
-                def relabel(vid, op_, H_, lost=tuple(sorted(lost))):
-                    if vid == 'owned-list-after-reg-subscription-missing':
-                        return 'known:rediscovery-misses-owned-subscription-between-unowned-filter-and-destination'
-                    return vid
-                H.relabel = relabel
-                ok = H.step(op)
-                H.relabel = None
-                if not ok:
-                    if all(v.startswith('known:rediscovery-misses') for v in H.vids):
-                        got = {sub_key(i.path) for i in H.mgr[op[1]].get_owned_subscriptions(H.srv[op[2]].url)}
-                        exp = H.exp_owned(op[1], op[2])[2]
-                        if exp - got == set(lost) and not got - exp:
-                            for k in lost:
-                                S2.sub[k] = None
-                            H.vids = []
-                            continue
-                    break
-                continue
         if not H.step(op):
             break
     else:
@@ -864,38 +868,35 @@ def random_history(rnd, idx):
 def main():
     rnd = random.Random(R.seed)
     quick = R.tier == 'quick'
-    dedicated()
-    # id pairs: all ordered pairs (thorough); quick: inert x inert, and every active id against 3 partners both ways
+    dedicated(quick)
+    # id pairs: all ordered pairs (thorough); quick: 7 inert ids pairwise, every active id against one partner
+    # both ways, and a seeded sample of the rest
     allids = INERT_IDS + ACTIVE_IDS
     if quick:
         pairs = [(a, b) for a in INERT_IDS[:7] for b in INERT_IDS[:7] if a != b]
-        for act in ACTIVE_IDS:
-            for other in ('abc', 'a', 'ab'):
-                pairs += [(other, act), (act, other)]
-        pairs += rnd.sample([(a, b) for a in allids for b in allids if a != b and (a, b) not in pairs], 20)
+        for act, other in zip(ACTIVE_IDS, itertools.cycle(('abc', 'a', 'ab'))):
+            pairs += [(other, act), (act, other)]
+        pairs += rnd.sample([(a, b) for a in allids for b in allids if a != b and (a, b) not in pairs], 6)
     else:
         pairs = [(a, b) for a in allids for b in allids if a != b]
     for a, b in pairs:
         pair_case(a, b)
-    # URL forms
+    # URL forms x persistence types x owned/permanent (quick: each URL, each persistence type, not the product)
     for url in URLS:
         for ptype in PTYPES:
             for owned in (True, False):
-                if quick and not owned and ptype not in (None, 'permanent', 'bogus'):
+                if quick and not ((ptype is None and owned) or url == 'HTTP://host1:5000'):
                     continue
-                url_case(url, ptype, owned)
+                url_case(url, ptype, owned, quick)
     # short sequences
-    maxlen = 2 if quick else 3
-    for n in range(1, maxlen + 1):
+    for n in (1, 2) if quick else (1, 2, 3):
         for syms in itertools.product(SYMS, repeat=n):
             seq_case('abc', syms)
-    longer = maxlen + 1
-    for _ in range(250 if quick else 6000):
-        seq_case(rnd.choice(('abc', '', 'x/y#z')), tuple(rnd.choice(SYMS) for _ in range(longer)))
-    for _ in range(0 if quick else 1500):
-        seq_case('abc', tuple(rnd.choice(SYMS) for _ in range(rnd.randrange(5, 9))))
+    for n, cnt in ((3, 80), (5, 20)) if quick else ((4, 300), (6, 150)):
+        for _ in range(cnt):
+            seq_case(rnd.choice(('abc', '', 'x/y#z')), tuple(rnd.choice(SYMS) for _ in range(n)))
     # random histories
-    for i in range(250 if quick else 5000):
+    for i in range(60 if quick else 600):
         random_history(rnd, i)
     for s in SERVERS:
         s.reset()
